@@ -19,31 +19,32 @@ import (
 )
 
 type c17Rep struct {
-	Zone       string `json:"zone"` // "" = name without separator
-	Lag        int64  `json:"lag"`  // -1 = unknown (replication not running)
-	LagMilli   int64  `json:"lag_milli,omitempty"` // fractional part in thousandths (a lag source with sub-second resolution)
-	Offline    bool   `json:"offline"`
-	Broken     bool   `json:"broken"` // permanently broken replication (errno 1146)
-	Resetup    string `json:"resetup"` // "fresh_false" | "fresh_true" | "stale_false" | "missing"
-	Down       bool   `json:"down"`
-	NoChan     bool   `json:"nochan,omitempty"` // no replication channel (a host being re-initialised, a stale master): it reports itself as a master
+	Zone     string `json:"zone"`                // "" = name without separator
+	Lag      int64  `json:"lag"`                 // -1 = unknown (replication not running)
+	LagMilli int64  `json:"lag_milli,omitempty"` // fractional part in thousandths (a lag source with sub-second resolution)
+	Offline  bool   `json:"offline"`
+	Broken   bool   `json:"broken"`  // permanently broken replication (errno 1146)
+	Resetup  string `json:"resetup"` // "fresh_false" | "fresh_true" | "stale_false" | "missing"
+	Down     bool   `json:"down"`
+	NoChan   bool   `json:"nochan,omitempty"` // no replication channel (a host being re-initialised, a stale master): it reports itself as a master
 }
 type c17In struct {
-	Reps         []c17Rep `json:"reps"`
-	MasterRO     bool     `json:"master_ro"`
-	MasterOffline bool    `json:"master_offline"`
-	MasterRecovery bool   `json:"master_recovery"`
-	Pct          int      `json:"pct"`
-	Sep          string   `json:"sep"`
-	LastShutdown int      `json:"last_shutdown_ago_s"` // -1 none
-	Passes       int      `json:"passes"`
-	Fault        *vk.Fault `json:"fault"`
-	DcsFault     *memFault `json:"dcs_fault"`
+	Reps           []c17Rep  `json:"reps"`
+	MasterRO       bool      `json:"master_ro"`
+	MasterOffline  bool      `json:"master_offline"`
+	MasterRecovery bool      `json:"master_recovery"`
+	Pct            int       `json:"pct"`
+	Sep            string    `json:"sep"`
+	LastShutdown   int       `json:"last_shutdown_ago_s"` // -1 none
+	Passes         int       `json:"passes"`
+	RestartBetween bool      `json:"restart_between,omitempty"` // between pass 1 and 2 the resetup status of every replica becomes {false, now} and then its mysqld restarts: the status is STALE for pass 2
+	Fault          *vk.Fault `json:"fault"`
+	DcsFault       *memFault `json:"dcs_fault"`
 }
 
 type c17Pass struct {
-	Trans []vk.Entry
-	State map[string]*nodestate.NodeState
+	Trans  []vk.Entry
+	State  map[string]*nodestate.NodeState
 	Orders [][]string
 	Before map[string]vk.Node
 	T      int64
@@ -228,6 +229,21 @@ func c17Run(in c17In) c17Out {
 		}
 		out.Passes = append(out.Passes, pass)
 		time.Sleep(5 * time.Second)
+		if p == 0 && in.RestartBetween {
+			for i := range in.Reps {
+				h := c17Host(i+2, in.Reps[i].Zone, sep)
+				d.rawSet(dcs.JoinPath(pathResetupStatus, h), mysql.ResetupStatus{Status: false, UpdateTime: time.Now()})
+			}
+			time.Sleep(2 * time.Second)
+			w.Mu.Lock()
+			for h, n := range w.Nodes {
+				if h != master {
+					n.StartedAt = time.Now().Unix() // mysqld restarted after the status was written
+				}
+			}
+			w.Mu.Unlock()
+			time.Sleep(2 * time.Second)
+		}
 	}
 	out.Cfg = va.cfg
 	return out
@@ -330,9 +346,13 @@ func c17Monitor(m *vk.Meta, in c17In, out c17Out) {
 				if st.SlaveState != nil && st.SlaveState.ReplicationLag != nil {
 					lag = *st.SlaveState.ReplicationLag
 				}
-				if !(lag >= 0 && lag <= 30) || r.Broken || r.Resetup != "fresh_false" {
+				resetup := r.Resetup
+				if in.RestartBetween && pi >= 1 {
+					resetup = "stale_false" // written before the restart that happened between the passes
+				}
+				if !(lag >= 0 && lag <= 30) || r.Broken || resetup != "fresh_false" {
 					m.Violation("a replica is brought online only with lag at or below the disable threshold, replication not permanently broken and a fresh negative resetup status", in,
-						fmt.Sprintf("pass %d: %s lag=%v broken=%v resetup=%s", pi, e.Host, lag, r.Broken, r.Resetup))
+						fmt.Sprintf("pass %d: %s lag=%v broken=%v resetup=%s", pi, e.Host, lag, r.Broken, resetup))
 				}
 			}
 		}
@@ -358,6 +378,17 @@ func c17Gen(o *vk.Out) c17In {
 		if in.Reps[i].Lag >= 0 {
 			in.Reps[i].LagMilli = []int64{0, 0, 0, 250, 500, 750}[r.Intn(6)]
 		}
+	}
+	if r.Intn(6) == 0 {
+		// an offline, caught-up replica kept offline in pass 1 by its resetup status; then the status becomes negative and
+		// mysqld restarts: for pass 2 the status is older than the server's start - stale - and the replica stays offline
+		in.Passes, in.RestartBetween = 2, true
+		in.MasterRO, in.MasterOffline, in.MasterRecovery = false, false, false
+		for i := range in.Reps {
+			in.Reps[i].Offline, in.Reps[i].Lag, in.Reps[i].LagMilli, in.Reps[i].Broken, in.Reps[i].Down, in.Reps[i].NoChan = true, 0, 0, false, false, false
+			in.Reps[i].Resetup = []string{"fresh_true", "stale_false"}[r.Intn(2)]
+		}
+		return in
 	}
 	if r.Intn(5) == 0 {
 		// zone stress: several lagging online replicas of one zone competing for the cap
